@@ -88,7 +88,7 @@ def run(ctx):
             for b, t in rem:
                 k = f.op_origin(t["args"][1])
                 ctx.check(k == ("param", 2), "R03.6", "%s|hook-removes-given-key" % name, "a removal hook removes exactly the key it is handed (the one recorded with the released id)", f.where(b), fmt(k))
-    ctx.floor("R03.6", "store-removal hooks", n_hooks, 2)
+    ctx.floor("R03.6", "store-removal hooks", n_hooks, 1)
     # eviction in the put path must not touch the key being inserted: the victim id comes from the sample of *charged* ids,
     # and the incoming id is charged only after eviction (R05.1: add after create_space)
 
